@@ -1,4 +1,470 @@
-//! C20 end-to-end part (stub while the scenario driver is being written).
-use vh::Out;
-pub fn run(_seed: u64, _n: u64, _tier: &str, _out: &mut Out) {}
-pub fn replay_case(_case: &str, _out: &mut Out) {}
+//! C20 end-to-end part: a real `Session` against `vh::mocknode`.
+//!
+//! One case = one scenario, fully determined by its seed and tier:  `E <scenario seed> <q|t>`.
+//! A scenario interleaves `Session::use_keyspace` calls (valid / unknown / invalid names, with
+//! delayed, refused, unanswered or connection-cutting USE answers) with bursts of marked requests,
+//! forced connection loss (pool refill + keyspace setup on the new connections), and node addition.
+//! The mock's handler records, in ONE global order shared with the client side, for every marked
+//! request frame the keyspace the server had acknowledged on that connection at arrival, and every
+//! USE statement text it received.
+//!
+//! observation (after '|'):  <k0> <events> <calls> <texts> <stats>
+//!   events  C:<u>:<name>:<cs> ; R:<u>:<0|1> ; S:<q> ; F:<q>:<acked|none>      ('-' if none)
+//!   calls   <name>:<cs>;..     every (name, flag) handed to use_keyspace         ('-' if none)
+//!   texts   <text>;..          distinct USE statement texts seen by the mock    ('-' if none)
+//!   stats   ok=<successful uses>,fr=<frames>,strict=<frames after a successful use>,cn=<connections>,nd=<nodes>,
+//!           slow=<requests abandoned after 3 s>
+use crate::{dec_name, enc_name};
+use scylla::client::PoolSize;
+use scylla::client::session::Session;
+use scylla::client::session_builder::SessionBuilder;
+use std::collections::BTreeSet;
+use std::num::NonZeroUsize;
+use std::sync::atomic::{AtomicU64, Ordering};
+use std::sync::{Arc, Mutex};
+use std::time::Duration;
+use vh::mocknode::*;
+use vh::{Out, Rng};
+
+#[derive(Clone, Copy, Debug, PartialEq)]
+enum UseFault {
+    None,
+    /// every USE answer is delayed by 0..=ms
+    Delay(u64),
+    /// the next `n` USE statements are refused (Invalid)
+    Refuse(u32),
+    /// the next `n` USE statements are never answered
+    Silent(u32),
+    /// the next `n` USE statements cut their connection
+    Cut(u32),
+}
+
+struct Shared {
+    events: Mutex<Vec<String>>,
+    texts: Mutex<BTreeSet<String>>,
+    fault: Mutex<(UseFault, Rng)>,
+    frames: AtomicU64,
+}
+
+fn marker(q: u64) -> String {
+    format!("SELECT v FROM t WHERE q = {}", q)
+}
+fn parse_marker(text: &str) -> Option<u64> {
+    text.strip_prefix("SELECT v FROM t WHERE q = ")?.trim().parse().ok()
+}
+
+fn handler(sh: Arc<Shared>) -> Handler {
+    Arc::new(move |ctx: &ReqCtx| {
+        if ctx.opcode != op::QUERY {
+            return None;
+        }
+        let text = ctx.text.as_deref()?;
+        if text.len() >= 4 && text[..4].eq_ignore_ascii_case("USE ") {
+            sh.texts.lock().unwrap().insert(text.to_string());
+            let mut f = sh.fault.lock().unwrap();
+            let (fault, rng) = &mut *f;
+            return match *fault {
+                UseFault::None => None,
+                UseFault::Delay(ms) => Some(vec![Action::Delay(rng.range(0, ms)), Action::Default]),
+                UseFault::Refuse(n) => {
+                    *fault = if n > 1 { UseFault::Refuse(n - 1) } else { UseFault::None };
+                    Some(vec![Action::Error(ErrorSpec::new(DbErr::Invalid, "scripted refusal"))])
+                }
+                UseFault::Silent(n) => {
+                    *fault = if n > 1 { UseFault::Silent(n - 1) } else { UseFault::None };
+                    Some(vec![Action::NoReply])
+                }
+                UseFault::Cut(n) => {
+                    *fault = if n > 1 { UseFault::Cut(n - 1) } else { UseFault::None };
+                    Some(vec![Action::Close(CutKind::Rst)])
+                }
+            };
+        }
+        if let Some(q) = parse_marker(text) {
+            let acked = match &ctx.keyspace {
+                Some(k) => enc_name(k),
+                None => "none".to_string(),
+            };
+            sh.events.lock().unwrap().push(format!("F:{:x}:{}", q, acked));
+            sh.frames.fetch_add(1, Ordering::Relaxed);
+        }
+        None
+    })
+}
+
+#[derive(Clone, Debug)]
+enum Op {
+    /// use_keyspace(name, cs) with a fault mode, `reqs` marked requests racing with it, and optionally
+    /// a connection kill racing with it
+    Use { name: String, cs: bool, fault: UseFault, reqs: u32, kill: Option<usize> },
+    /// two use_keyspace calls at the same time (same name: supported; different names: documented as
+    /// unsupported, the acceptor then only demands one of the two)
+    Use2 { a: (String, bool), b: (String, bool) },
+    Reqs { n: u32, concurrent: bool },
+    Kill { node: usize, rst: bool },
+    CloseOne,
+    AddNode,
+    Sleep(u64),
+}
+
+const KEYSPACES: [&str; 4] = ["ks_a", "ks_b", "Ks_C", "k9"];
+
+fn gen_name(r: &mut Rng) -> (String, bool) {
+    match r.below(20) {
+        0..=3 => ("ks_a".into(), false),
+        4 | 5 => ("ks_b".into(), r.bool()),
+        6 => ("KS_A".into(), false),          // unquoted: the server lower-cases
+        7 | 8 => ("Ks_C".into(), true),       // needs the quotes
+        9 => ("k9".into(), r.bool()),
+        10 => ("Ks_C".into(), false),         // lower-cased to ks_c, which does not exist
+        11 => ("KS_A".into(), true),          // quoted: no such keyspace
+        12 => ("nope".into(), r.bool()),
+        13 => (String::new(), false),
+        14 => ("ks_a;drop".into(), false),
+        15 => ("\"ks_a\"".into(), r.bool()),
+        16 => ("k".repeat(49), false),
+        17 => ("ks a".into(), true),
+        _ => ("ks_b".into(), false),
+    }
+}
+fn gen_fault(r: &mut Rng) -> UseFault {
+    match r.below(12) {
+        0..=5 => UseFault::None,
+        6 | 7 => UseFault::Delay(r.range(1, 25)),
+        8 => UseFault::Refuse(r.range(1, 2) as u32),
+        9 => UseFault::Silent(1),
+        _ => UseFault::Cut(r.range(1, 2) as u32),
+    }
+}
+fn gen_ops(r: &mut Rng, nodes: usize, thorough: bool) -> Vec<Op> {
+    let len = r.range(5, if thorough { 16 } else { 11 });
+    let mut ops = Vec::new();
+    if r.chance(1, 3) {
+        ops.push(Op::Reqs { n: r.range(2, 8) as u32, concurrent: r.bool() });
+    }
+    for _ in 0..len {
+        let op = match r.below(16) {
+            0..=4 => {
+                let (name, cs) = gen_name(r);
+                Op::Use {
+                    name,
+                    cs,
+                    fault: gen_fault(r),
+                    reqs: if r.bool() { r.range(2, 10) as u32 } else { 0 },
+                    kill: if r.chance(1, 4) { Some(r.below(nodes as u64) as usize) } else { None },
+                }
+            }
+            5 => {
+                let a = gen_name(r);
+                let b = if r.bool() { a.clone() } else { gen_name(r) };
+                Op::Use2 { a, b }
+            }
+            6..=9 => Op::Reqs { n: r.range(4, 24) as u32, concurrent: r.bool() },
+            10 | 11 => Op::Kill { node: r.below(nodes as u64) as usize, rst: r.bool() },
+            12 => Op::CloseOne,
+            13 => Op::AddNode,
+            _ => Op::Sleep(r.range(1, 90)),
+        };
+        ops.push(op);
+    }
+    // always end with: a clean use, racing requests, a refill, and requests afterwards
+    ops.push(Op::Use { name: (*r.pick(&["ks_a", "ks_b", "k9"])).into(), cs: false, fault: UseFault::None, reqs: 4, kill: None });
+    ops.push(Op::Kill { node: r.below(nodes as u64) as usize, rst: true });
+    ops.push(Op::Reqs { n: 12, concurrent: true });
+    ops.push(Op::Sleep(70));
+    ops.push(Op::Reqs { n: 16, concurrent: r.bool() });
+    ops
+}
+
+struct Ctx {
+    sh: Arc<Shared>,
+    session: Arc<Session>,
+    next_q: AtomicU64,
+    next_u: AtomicU64,
+    calls: Mutex<Vec<(String, bool)>>,
+    ok_uses: AtomicU64,
+    slow: AtomicU64,
+    hang: Mutex<Option<String>>,
+}
+
+impl Ctx {
+    async fn request(self: &Arc<Self>) {
+        let q = self.next_q.fetch_add(1, Ordering::Relaxed);
+        self.sh.events.lock().unwrap().push(format!("S:{:x}", q));
+        // A request that does not come back within the cap is abandoned and counted (`slow=`): whether
+        // requests caught by a dying connection fail promptly is property C10, not C20.
+        let lim: u64 = std::env::var("C20_REQ_LIMIT_MS").ok().and_then(|s| s.parse().ok()).unwrap_or(3000);
+        if tokio::time::timeout(Duration::from_millis(lim), self.session.query_unpaged(marker(q), ())).await.is_err() {
+            self.slow.fetch_add(1, Ordering::Relaxed);
+        }
+    }
+    async fn requests(self: &Arc<Self>, n: u32, concurrent: bool) {
+        if concurrent {
+            let hs: Vec<_> = (0..n)
+                .map(|_| {
+                    let me = self.clone();
+                    tokio::spawn(async move { me.request().await })
+                })
+                .collect();
+            for h in hs {
+                let _ = h.await;
+            }
+        } else {
+            for _ in 0..n {
+                self.request().await;
+            }
+        }
+    }
+    async fn use_keyspace(self: &Arc<Self>, name: &str, cs: bool) {
+        self.calls.lock().unwrap().push((name.to_string(), cs));
+        // the call is an event of the trace only when the name is valid (otherwise nothing may be
+        // sent at all: that is checked through `texts`)
+        let valid = !name.is_empty() && name.chars().count() <= 48 && name.chars().all(|c| c.is_ascii_alphanumeric() || c == '_');
+        let u = self.next_u.fetch_add(1, Ordering::Relaxed);
+        if valid {
+            self.sh.events.lock().unwrap().push(format!("C:{:x}:{}:{}", u, enc_name(name), cs as u8));
+        }
+        let res = tokio::time::timeout(Duration::from_secs(20), self.session.use_keyspace(name.to_string(), cs)).await;
+        let ok = match res {
+            Ok(r) => r.is_ok(),
+            Err(_) => {
+                *self.hang.lock().unwrap() = Some(format!("use_keyspace {:?} did not return", name));
+                false
+            }
+        };
+        if valid {
+            self.sh.events.lock().unwrap().push(format!("R:{:x}:{}", u, ok as u8));
+            if ok {
+                self.ok_uses.fetch_add(1, Ordering::Relaxed);
+            }
+        } else if ok {
+            *self.hang.lock().unwrap() = Some(format!("use_keyspace accepted the invalid name {:?}", name));
+        }
+    }
+}
+
+pub async fn run_scenario(sseed: u64, thorough: bool) -> String {
+    let mut r = Rng::new(sseed ^ 0xC20C_20C2_0C20);
+    let nodes0 = r.range(1, 3) as usize;
+    let shards: u16 = *r.pick(&[0u16, 1, 2, 3]);
+    let per: usize = r.range(1, 2) as usize;
+    let pool = if r.bool() { PoolSize::PerShard(NonZeroUsize::new(per).unwrap()) } else { PoolSize::PerHost(NonZeroUsize::new(per + 1).unwrap()) };
+    let mut spec = ClusterSpec::uniform("c20", &[("dc1", nodes0)], 1, 4, shards);
+    for k in KEYSPACES {
+        spec = spec.with_keyspace(KeyspaceDef::simple(k, 1));
+    }
+    let cluster = match MockCluster::start(spec).await {
+        Ok(c) => Arc::new(c),
+        Err(e) => return format!("error mock-start {:?}", e),
+    };
+    let sh = Arc::new(Shared {
+        events: Mutex::new(Vec::new()),
+        texts: Mutex::new(BTreeSet::new()),
+        fault: Mutex::new((UseFault::None, Rng::new(sseed.wrapping_mul(31) + 7))),
+        frames: AtomicU64::new(0),
+    });
+    cluster.set_handler(Some(handler(sh.clone())));
+    let mut b = SessionBuilder::new()
+        .known_node_addr(cluster.contact_point(0))
+        .connection_timeout(Duration::from_millis(400))
+        .pool_size(pool);
+    if r.chance(1, 4) {
+        b = b.disallow_shard_aware_port(true);
+    }
+    // sometimes the keyspace is given to the builder: Session::connect then calls use_keyspace itself
+    let builder_ks = if r.chance(1, 5) { Some(*r.pick(&["ks_a", "ks_b"])) } else { None };
+    if let Some(k) = builder_ks {
+        // the builder's call is not bracketed by our events; to keep the trace sound it is recorded
+        // as a call that started before everything and returned when build() returned
+        sh.events.lock().unwrap().push(format!("C:{:x}:{}:0", 0xffffu64, enc_name(k)));
+        b = b.use_keyspace(k, false);
+    }
+    let session = match tokio::time::timeout(Duration::from_secs(20), b.build()).await {
+        Ok(Ok(s)) => Arc::new(s),
+        Ok(Err(e)) => return format!("error session {:?}", e),
+        Err(_) => return "error session-timeout".into(),
+    };
+    if builder_ks.is_some() {
+        sh.events.lock().unwrap().push(format!("R:{:x}:1", 0xffffu64));
+    }
+    let cx = Arc::new(Ctx {
+        sh: sh.clone(),
+        session,
+        next_q: AtomicU64::new(0),
+        next_u: AtomicU64::new(0),
+        calls: Mutex::new(builder_ks.map(|k| (k.to_string(), false)).into_iter().collect()),
+        ok_uses: AtomicU64::new(builder_ks.is_some() as u64),
+        slow: AtomicU64::new(0),
+        hang: Mutex::new(None),
+    });
+    let mut nodes = nodes0;
+    let ops = gen_ops(&mut r, nodes0, thorough);
+    for op in ops {
+        match op {
+            Op::Use { name, cs, fault, reqs, kill } => {
+                sh.fault.lock().unwrap().0 = fault;
+                let racing = {
+                    let me = cx.clone();
+                    tokio::spawn(async move {
+                        if reqs > 0 {
+                            me.requests(reqs, true).await
+                        }
+                    })
+                };
+                let killer = {
+                    let c = cluster.clone();
+                    let d = r.range(0, 3);
+                    tokio::spawn(async move {
+                        if let Some(n) = kill {
+                            tokio::time::sleep(Duration::from_millis(d)).await;
+                            c.kill_connections(n, CutKind::Rst);
+                        }
+                    })
+                };
+                cx.use_keyspace(&name, cs).await;
+                let _ = racing.await;
+                let _ = killer.await;
+                sh.fault.lock().unwrap().0 = UseFault::None;
+            }
+            Op::Use2 { a, b } => {
+                let (m1, m2) = (cx.clone(), cx.clone());
+                let h1 = tokio::spawn(async move { m1.use_keyspace(&a.0, a.1).await });
+                let h2 = tokio::spawn(async move { m2.use_keyspace(&b.0, b.1).await });
+                let _ = h1.await;
+                let _ = h2.await;
+            }
+            Op::Reqs { n, concurrent } => cx.requests(n, concurrent).await,
+            Op::Kill { node, rst } => {
+                cluster.kill_connections(node.min(nodes - 1), if rst { CutKind::Rst } else { CutKind::Fin });
+            }
+            Op::CloseOne => {
+                let cs: Vec<ConnInfo> = cluster.connections(None).into_iter().filter(|c| c.registered.is_empty()).collect();
+                if !cs.is_empty() {
+                    let c = &cs[r.below(cs.len() as u64) as usize];
+                    cluster.close_connection(c.node, c.conn_id, CutKind::Rst);
+                }
+            }
+            Op::AddNode => {
+                if nodes < 5 {
+                    let idx = nodes;
+                    let tokens: Vec<i64> = (0..4).map(|t| (idx as i64) * 1_000_003 + t * 7_919_000_000_007).collect();
+                    if cluster.add_node(NodeSpec::new(idx, "dc1", "r1", tokens, shards)).await.is_ok() {
+                        nodes += 1;
+                        let _ = tokio::time::timeout(Duration::from_secs(20), cx.session.refresh_metadata()).await;
+                    }
+                }
+            }
+            Op::Sleep(ms) => tokio::time::sleep(Duration::from_millis(ms)).await,
+        }
+        if cx.hang.lock().unwrap().is_some() {
+            break;
+        }
+    }
+    let conns = cluster.connections(None).len();
+    let hang = cx.hang.lock().unwrap().clone();
+    if hang.is_some() && std::env::var("C20_DEBUG").is_ok() {
+        eprintln!("=== scenario {:x}: {:?}", sseed, hang);
+        eprintln!("live connections: {:?}", cluster.connections(None));
+        for e in cluster.trace_snapshot() {
+            match &e.ev {
+                Ev::In { stream, opcode, body, .. } => {
+                    let t = if *opcode == op::QUERY { wire::decode_query(body).map(|q| q.text).unwrap_or_default() } else { String::new() };
+                    eprintln!("{:>10} n{} c{} IN  s{} {} {}", e.t_ns / 1000, e.node, e.conn_id, stream, op::name(*opcode), t)
+                }
+                Ev::Out { stream, opcode, written, .. } => eprintln!("{:>10} n{} c{} OUT s{} {} w{}", e.t_ns / 1000, e.node, e.conn_id, stream, op::name(*opcode), written),
+                other => eprintln!("{:>10} n{} c{} {:?}", e.t_ns / 1000, e.node, e.conn_id, other),
+            }
+        }
+        eprintln!("events: {:?}", sh.events.lock().unwrap());
+    }
+    let events = sh.events.lock().unwrap().clone();
+    let texts: Vec<String> = sh.texts.lock().unwrap().iter().cloned().collect();
+    let calls = cx.calls.lock().unwrap().clone();
+    let ok_uses = cx.ok_uses.load(Ordering::Relaxed);
+    let slow = cx.slow.load(Ordering::Relaxed);
+    cluster.set_handler(None);
+    drop(cx);
+    cluster.shutdown();
+    if let Some(h) = hang {
+        return format!("error {}", h.replace(' ', "_"));
+    }
+    // strict frames: frames of requests started after a successful return with no call since
+    let mut strict = 0u64;
+    {
+        let mut clean_ok = false;
+        let mut started_clean: BTreeSet<String> = BTreeSet::new();
+        for e in &events {
+            let f: Vec<&str> = e.split(':').collect();
+            match f[0] {
+                "C" => {
+                    clean_ok = false;
+                    started_clean.clear();
+                }
+                "R" => clean_ok = f[2] == "1",
+                "S" if clean_ok => {
+                    started_clean.insert(f[1].to_string());
+                }
+                "F" if started_clean.contains(f[1]) => strict += 1,
+                _ => {}
+            }
+        }
+    }
+    let join = |v: Vec<String>| if v.is_empty() { "-".to_string() } else { v.join(";") };
+    format!(
+        "none {} {} {} ok={},fr={},strict={},cn={},nd={},slow={}",
+        join(events),
+        join(calls.iter().map(|(n, c)| format!("{}:{}", enc_name(n), *c as u8)).collect()),
+        join(texts.iter().map(|t| enc_name(t)).collect()),
+        ok_uses,
+        sh.frames.load(Ordering::Relaxed),
+        strict,
+        conns,
+        nodes,
+        slow
+    )
+}
+
+fn run_many(seeds: Vec<u64>, thorough: bool, out: &mut Out) {
+    let tag = if thorough { "t" } else { "q" };
+    let par: usize = std::env::var("C20_PAR").ok().and_then(|s| s.parse().ok()).unwrap_or(10);
+    let rt = tokio::runtime::Builder::new_multi_thread().worker_threads(8).enable_all().build().unwrap();
+    let results: Vec<(u64, String)> = rt.block_on(async move {
+        use futures::stream::{self, StreamExt};
+        stream::iter(seeds.into_iter().map(|s| async move {
+            let h = tokio::spawn(run_scenario(s, thorough));
+            let o = match h.await {
+                Ok(o) => o,
+                Err(e) => format!("error panic {}", e).replace(' ', "_"),
+            };
+            (s, o)
+        }))
+        .buffered(par)
+        .collect()
+        .await
+    });
+    for (s, o) in results {
+        out.case(&format!("E {:x} {}", s, tag), &o);
+    }
+}
+
+pub fn run(seed: u64, n: u64, tier: &str, out: &mut Out) {
+    let mut r = Rng::new(seed.wrapping_mul(0x9E37_79B9) ^ 0xE2E);
+    let seeds: Vec<u64> = (0..n).map(|_| r.u64() >> 16).collect();
+    run_many(seeds, tier == "thorough", out);
+}
+
+pub fn replay_case(case: &str, out: &mut Out) {
+    let f: Vec<&str> = case.split_whitespace().collect();
+    if f.len() == 3 && f[0] == "E" {
+        if let Ok(s) = u64::from_str_radix(f[1], 16) {
+            run_many(vec![s], f[2] == "t", out);
+            return;
+        }
+    }
+    out.case(case, "error unknown-case");
+}
+
+#[allow(dead_code)]
+fn _unused() {
+    let _ = dec_name("-");
+}
